@@ -24,7 +24,7 @@ RULE = (
 )
 ASSUMPTIONS = [
     "entries disappear only through the explicit clear / reduce_size steps of the history (outputs are small picklable tuples)",
-    "partial and async carriers are not generated in this version (see DESIGN.md residuals)",
+    "async carriers are judged like plain functions; partial carriers are only judged for values (C02): joblib keys them on their literal call arguments",
 ]
 SHARDS = {"quick": 8, "thorough": 16}
 
@@ -59,7 +59,12 @@ def run_case(spec):
         if "skipped" in r:
             classes.append("skipped-" + r["skipped"])
             continue
-        key = json.dumps(r["key"][1:] if r["key"][0] == "f" else ["m"] + r["key"][1:])
+        if r["key"][0] in ("pA", "pB"):
+            # partial objects are keyed on their literal call arguments and share one directory per process run:
+            # only value correctness (C02) is asserted for them
+            classes.append("partial-carrier-not-judged")
+            continue
+        key = json.dumps(r["key"][1:] if r["key"][0] in ("f", "as") else ["m"] + r["key"][1:])
         ctx = "step %d op=%s %s carrier=%s spelling=%r signatures=%s ignore=%r compress=%r" % (
             r["i"], op, r["expected"][0], r["key"][0], r["spelling"][:3], sigs_txt, spec["ignore"], spec["compress"])
         if "raised" in r:
